@@ -46,12 +46,17 @@ impl Duration {
     }
 }
 
+/// Panics if the number of nanoseconds in `duration`
+/// would overflow a `u64` (like [`Duration::from_millis`] and [`Duration::from_secs`]).
 impl From<std::time::Duration> for Duration {
     #[cfg_attr(kani, kani::requires(duration.as_secs() < 18_446_744_073 || (duration.as_secs() == 18_446_744_073 && duration.subsec_nanos() <= 709_551_615)))]
     #[cfg_attr(kani, kani::ensures(|r: &Self| r.nanos == duration.as_secs() * 1_000_000_000 + duration.subsec_nanos() as u64))]
     fn from(duration: std::time::Duration) -> Self {
         Duration {
-            nanos: duration.as_nanos() as u64,
+            nanos: duration
+                .as_nanos()
+                .try_into()
+                .expect("duration overflow"),
         }
     }
 }
